@@ -31,6 +31,7 @@ Cat == <<
   [name |-> "WithOnOpen",              field |-> "G.OnOpen",             kind |-> "set",  objs |-> "gnp"],
   [name |-> "WithOnClose",             field |-> "G.OnClose",            kind |-> "set",  objs |-> "gnp"],
   [name |-> "WithLogger",              field |-> "Logger",               kind |-> "set",  objs |-> "gncp"],
+  [name |-> "WithDefaultLogger",       field |-> "Logger",               kind |-> "set",  objs |-> "gnp"],
   [name |-> "WithNetconfPreferredVersion", field |-> "NC.PreferredVersion", kind |-> "set", objs |-> "c"],
   [name |-> "WithNetconfForceSelfClosingTags", field |-> "NC.ForceSelfClosingTags", kind |-> "flag", objs |-> "c"],
   [name |-> "WithNetconfExcludeHeader", field |-> "NC.ExcludeHeader",    kind |-> "flag", objs |-> "c"],
@@ -94,7 +95,9 @@ Invalid == <<
   [tag |-> "WithTransportType:bogus",          reject |-> [g |-> "bad", n |-> "bad", c |-> "bad", p |-> "bad"]],
   [tag |-> "WithNetconfPreferredVersion:bogus", reject |-> [g |-> "bad-or-ignored", n |-> "bad-or-ignored", c |-> "bad", p |-> "bad-or-ignored"]],
   [tag |-> "WithSSHKnownHostsFile:missing",     reject |-> [g |-> "error", n |-> "error", c |-> "error", p |-> "error"]],
-  [tag |-> "NoPrivilegeLevels:0",               reject |-> [g |-> "", n |-> "bad", c |-> "", p |-> ""]]
+  [tag |-> "NoPrivilegeLevels:0",               reject |-> [g |-> "", n |-> "bad", c |-> "", p |-> ""]],
+  \* not invalid at all: with the telnet transport the SSH file options do not apply, whatever their value - ignored without error
+  [tag |-> "TelnetIgnoresSSHFileOptions:0",     reject |-> [g |-> "", n |-> "", c |-> "", p |-> ""]]
 >>
 Insert(l, pos, x) == SubSeq(l, 1, pos) \o <<x>> \o SubSeq(l, pos + 1, Len(l))
 InvScn(m) == LET user == List(m, Below(6, m, 1), 10)
